@@ -602,6 +602,37 @@ def run_c08(r: Run):
                 r.violation("history", {"pair": [a, b]}, f"one generator asked for {a} and then for {b} returns a pattern for {b} that differs "
                             f"from the stateless function's", expected=il.split("|")[-1].partition("~")[2][:300],
                             observed={"lines": [line], "impl": il[:300]})
+    # every element on its own generator: a SHORT first request (2..7 peaks — for some elements exactly the length at which
+    # cached polynomial vectors would be cut or skipped), then longer ones that need every term the element has and more
+    llines, lmeta = [], []
+    for a in syms:
+        span = T[a]["span"]
+        if span < 1:
+            continue
+        for k in range(2, 8):
+            calls = [(f"{a}:0=1", f"n:{k}"), (f"{a}:0=2,H:0=1", f"n:{k + 2}"), (f"{a}:0=2", f"n:{span + 4}"), (f"{a}:0=1,C:0=2", f"n:{2 * span + 3}"),
+                     (f"{a}:0=1", f"n:{k}")]
+            llines.append("brainhist\t" + "|".join(f"{c};{q};0;1007276/1000000;vec" for c, q in calls))
+            lmeta.append((a, k))
+    lout = r.impl("brainhist", llines, stall=120)
+    nlad_bad = 0
+    for (a, k), line, il in zip(lmeta, llines, lout):
+        outs = il.split("|")
+        good = len(outs) == 5
+        if good:
+            for o in outs:
+                gen_s, _, st_s = o.partition("~")
+                if gen_s != st_s and not same_peaks(gen_s, st_s, 1e-12):
+                    good = False
+        r.evaluations += 1
+        if not good:
+            corr_ok = False
+            nlad_bad += 1
+            if nlad_bad <= 4:
+                r.violation("history", {"ladder": a, "first": k}, f"one generator asked for {a} with {k} peaks and then for longer patterns of {a} returns "
+                            f"a pattern that differs from the stateless function's", observed={"lines": [line], "impl": il[:300]})
+    r.case(("element-ladders", nlad_bad == 0), {"ladders": len(llines), "differing": nlad_bad})
+    r.coverage["element_ladders"] = dict(histories=len(llines), differing=nlad_bad)
     r.case(("element-pairs", npair_bad == 0), {"pairs": len(plines), "differing": npair_bad})
     r.coverage["element_pairs"] = dict(ordered_pairs=len(plines), differing=npair_bad)
     # repetition and concurrency: 16 threads, own generators + stateless calls, compared with single-threaded results
